@@ -138,6 +138,14 @@ func flagRate(prop, flag string) int {
 			return 40
 		}
 	}
+	// flags whose effect is a (known) chain halt or a corrupted parameter set belong to the
+	// properties that are about exactly that; elsewhere they would only end runs early
+	if flag == "denomchange" && prop != "C14" && prop != "C16" {
+		return 0
+	}
+	if flag == "minaccepts63" && prop != "C16" && prop != "C03" {
+		return 0
+	}
 	return base
 }
 
